@@ -22,7 +22,11 @@ pub fn install_panic_hook() {
     panic::set_hook(Box::new(|info| {
         let loc = info
             .location()
-            .map(|l| format!("{}:{}", l.file().rsplit("/repo/").next().unwrap_or(l.file()), l.line()))
+            .map(|l| {
+                // the tree under test is /repo unless VERIF_REPO names a scratch copy (seeded-change testing)
+                let root = std::env::var("VERIF_REPO").map(|r| format!("{}/", r.trim_end_matches('/'))).unwrap_or_else(|_| "/repo/".into());
+                format!("{}:{}", l.file().rsplit(root.as_str()).next().unwrap_or(l.file()), l.line())
+            })
             .unwrap_or_else(|| "?".into());
         let msg = if let Some(s) = info.payload().downcast_ref::<&str>() {
             s.to_string()
